@@ -19,7 +19,11 @@ def install(eng):
             v = st.new_input('information_tables', 32, 'env'); d['tables'] = v
             return ('int', E.simp(z3.SignExt(32, v)))
         if 'schemaVersionMajor' in sql:
-            v = st.new_input(['major', 'minor', 'patch'][col], 32, 'env'); d[['maj', 'min', 'pat'][col]] = v
+            # the triple the decision table is judged on is the one read FIRST (the music database / the only database); a second version query
+            # (another attached file) gets its own independent answer, which must not influence the result
+            k = ['maj', 'min', 'pat'][col]; nth = d.setdefault('vq', {}).setdefault(id(s_), len(d['vq']))
+            v = st.new_input(['major', 'minor', 'patch'][col] + ('' if nth == 0 else '_q%d' % nth), 32, 'env')
+            if nth == 0: d[k] = v
             return ('int', E.simp(z3.SignExt(32, v)))
         if sql.startswith('PRAGMA table_info'):
             if col == 1:
